@@ -144,6 +144,8 @@ pub enum TargetMode {
     SendThenShutdown(Vec<u8>),
     /// on accept: send this and close the connection
     SendThenClose(Vec<u8>),
+    /// once this many bytes have arrived: send the reply (the connection stays open)
+    ReplyAfter(usize, Vec<u8>),
 }
 
 #[derive(Default, Debug)]
@@ -185,6 +187,11 @@ impl TcpTarget {
                         _ => {}
                     }
                     let mut buf = vec![0u8; 65536];
+                    let mut replied = false;
+                    if let TargetMode::ReplyAfter(0, reply) = &mode {
+                        replied = true;
+                        let _ = s.write_all(reply).await;
+                    }
                     loop {
                         match s.read(&mut buf).await {
                             Ok(0) => {
@@ -192,9 +199,23 @@ impl TcpTarget {
                                 break;
                             }
                             Ok(n) => {
-                                rec.lock().unwrap().received.extend_from_slice(&buf[..n]);
+                                let total = {
+                                    let mut g = rec.lock().unwrap();
+                                    g.received.extend_from_slice(&buf[..n]);
+                                    g.received.len()
+                                };
                                 if mode == TargetMode::Echo && s.write_all(&buf[..n]).await.is_err() {
                                     break;
+                                }
+                                if let TargetMode::ReplyAfter(need, reply) = &mode {
+                                    if !replied && total >= *need {
+                                        replied = true;
+                                        // (a moment later: the application's half-close has travelled by then)
+                                        tokio::time::sleep(Duration::from_millis(60)).await;
+                                        if s.write_all(reply).await.is_err() {
+                                            break;
+                                        }
+                                    }
                                 }
                             }
                             Err(e) => {
